@@ -54,28 +54,29 @@ def jsonable(x):
 
 def search(req):
     fn = req['fn']
-    orc = ORACLES.get(fn)
-    if orc is None and fn in ALIASES:
-        fn = ALIASES[fn]            # searched through the entry point that runs it
-        orc = ORACLES.get(fn)
-    if orc is None:
+    targets = [fn] if fn in ORACLES else [t for t in ALIASES.get(fn, []) if t in ORACLES]
+    if not targets:
         return dict(found=False, error='no executable oracle for %s' % fn)
-    rng = random.Random(req.get('seed', 0))
-    budget = 200.0 if req.get('tier') == 'thorough' else 45.0
-    t0 = time.time()
-    n = 0
-    for args in orc.inputs(req.get('case'), rng, req.get('model') or {}, req.get('tier', 'quick')):
-        n += 1
-        try:
-            fail = orc.check(req.get('case'), args)
-        except Exception as e:            # an exception on a valid input is itself a failure
-            fail = 'raised %s: %s' % (type(e).__name__, e)
-        if fail:
-            return dict(found=True, fn=fn, case=req.get('case'), args=jsonable(args), failure=fail,
-                        inputs_tried=n)
-        if time.time() - t0 > budget:
-            break
-    return dict(found=False, fn=fn, case=req.get('case'), inputs_tried=n,
+    total = 200.0 if req.get('tier') == 'thorough' else 45.0
+    tried = 0
+    for k, tgt in enumerate(targets):
+        orc = ORACLES[tgt]
+        rng = random.Random(req.get('seed', 0))
+        budget = total / len(targets)
+        t0 = time.time()
+        case = req.get('case')        # entry-point oracles read what they can from an internal's case name
+        for args in orc.inputs(case, rng, req.get('model') or {}, req.get('tier', 'quick')):
+            tried += 1
+            try:
+                fail = orc.check(case, args)
+            except Exception as e:            # an exception on a valid input is itself a failure
+                fail = 'raised %s: %s' % (type(e).__name__, e)
+            if fail:
+                return dict(found=True, fn=tgt, case=case, args=jsonable(args), failure=fail, inputs_tried=tried,
+                            searched_for=fn)
+            if time.time() - t0 > budget:
+                break
+    return dict(found=False, fn=fn, case=req.get('case'), inputs_tried=tried,
                 note='bounded search exhausted its budget without a failing input')
 
 
